@@ -12,7 +12,7 @@ from sklearn.utils._param_validation import Interval, StrOptions
 from sklearn.utils.validation import check_is_fitted
 
 from ._utils import find_best_split, gemini_objective, Split
-from .._constraints import constraint_params
+from .._constraints import constraint_params, validate_data
 
 
 class Tree:
@@ -188,7 +188,7 @@ class Kauri(ClusterMixin, BaseEstimator, ABC):
 
         # Check that X has the correct shape
         X = check_array(X)
-        X = self._validate_data(X, accept_sparse=True, dtype=np.float64, ensure_min_samples=self.min_samples_leaf)
+        X = validate_data(self, X, accept_sparse=True, dtype=np.float64, ensure_min_samples=self.min_samples_leaf)
 
         # Create the random state
         random_state = check_random_state(self.random_state)
